@@ -49,3 +49,4 @@ Ltac ext_rec :=
 (* component-wise reduction of an L1 equation to scalar goals *)
 Ltac cbv_sc := cbv -[o0 o1 oadd omul osub oopp odiv oinv osqrt ocos osin oatan2 oltb oeqb].
 Ltac l1_split := intros; destr_rec; ext_rec; cbv_sc.
+Ltac cbv_sc_all := cbv -[o0 o1 oadd omul osub oopp odiv oinv osqrt ocos osin oatan2 oltb oeqb] in *.
